@@ -88,6 +88,28 @@ def tystr(types, ix, depth=0):
     return t.get("s", k)
 
 
+def _load_doc(path):
+    """json.load with a marshal side-cache (same directory, same content, 10x faster to read)."""
+    import marshal
+    mp = path + ".marshal"
+    try:
+        if os.path.getmtime(mp) >= os.path.getmtime(path):
+            with open(mp, "rb") as fh:
+                return marshal.load(fh)
+    except (OSError, ValueError, EOFError, TypeError):
+        pass
+    with open(path) as fh:
+        d = json.load(fh)
+    try:
+        tmp = mp + ".%d" % os.getpid()
+        with open(tmp, "wb") as fh:
+            marshal.dump(d, fh)
+        os.replace(tmp, mp)
+    except (OSError, ValueError):
+        pass
+    return d
+
+
 class Program:
     """All bodies of the analysed crates joined by canonical key (crate name + DefPath)."""
 
@@ -106,8 +128,7 @@ class Program:
     def load(facts_dir, files):
         p = Program()
         for f in files:
-            with open(os.path.join(facts_dir, f)) as fh:
-                d = json.load(fh)
+            d = _load_doc(os.path.join(facts_dir, f))
             if d.get("schema") != 1:
                 raise RuntimeError("unknown fact schema in %s" % f)
             cname = d["crate"] + ":" + d["crate_type"]
@@ -155,6 +176,35 @@ class Program:
         if len(m) != 1:
             raise AnchorMissing("anchor %r matches %d bodies %s" % (pretty, len(m), [b.pretty for b in m][:6]))
         return m[0]
+
+    def method(self, self_adt, name, trait=None):
+        """Unique method body by (Self ADT key suffix, method name[, trait key suffix]) — robust against
+        impl renumbering."""
+        m = []
+        for b in self.bodies.values():
+            if b.kind != "method" or b.name != name or b.self_ty is None:
+                continue
+            st = b.types[b.self_ty]
+            if st.get("k") != "adt":
+                continue
+            d = st["d"]
+            if not (d == self_adt or d.endswith("::" + self_adt)):
+                continue
+            if trait is not None and not (b.impl_trait and (b.impl_trait == trait or b.impl_trait.endswith("::" + trait))):
+                continue
+            if trait is None and b.impl_trait and b.derived:
+                continue
+            m.append(b)
+        if len(m) != 1:
+            raise AnchorMissing("method %s::%s%s matches %d bodies %s" % (self_adt, name, " (%s)" % trait if trait else "", len(m), [b.key for b in m][:4]))
+        return m[0]
+
+    def coroutine_of(self, body):
+        """The coroutine body of an `async fn` / async_trait method wrapper."""
+        kids = [k for k in self.children(body) if k.kind == "coroutine"]
+        if len(kids) != 1:
+            raise AnchorMissing("%s has %d coroutine children" % (body.key, len(kids)))
+        return kids[0]
 
     def children(self, body):
         return [b for b in self.bodies.values() if b.parent == body.key]
